@@ -36,8 +36,8 @@ fn class_size(w: &World, class: &str) -> u64 {
         "field_fti" => w.corpus.iter().map(|c| fti_extremes(obj_fec(c)).len() as u64 * 2).sum(),
         "field_fti_any" => w.corpus.len() as u64 * fti_any_per(w),
         "field_misc" => w.corpus.len() as u64 * MISC_EDITS,
-        "fdtxml" => w.corpus.len() as u64 * if w.thorough { 400 } else { 40 },
-        "sequence" => if w.thorough { 200_000 } else { 6000 },
+        "fdtxml" => w.corpus.len() as u64 * if w.thorough { 1200 } else { 40 },
+        "sequence" => if w.thorough { 1_500_000 } else { 6000 },
         _ => 0,
     }
 }
@@ -454,7 +454,7 @@ fn gen_seq(w: &World, class: &str, k: u64) -> Option<(Value, u64, Vec<Vec<u8>>)>
             Some((json!({"class": "field_misc", "session": c.name, "edit": what}), c.em.spec.tsi, seq))
         }
         "fdtxml" => {
-            let per = if w.thorough { 400 } else { 40 };
+            let per = if w.thorough { 1200 } else { 40 };
             let c = &w.corpus[(k / per) as usize];
             let views = vh::small::fdt_views(&c.em);
             let xml = views.iter().find_map(|v| v.xml.clone())?;
